@@ -191,6 +191,17 @@ func (d *Driver[K, V]) setPassKeyBytes(f func([]byte) []byte) {
 	d.passKey = func(k K) K { return any(f(any(k).([]byte))).(K) }
 }
 
+// yieldedBytes returns the raw []byte keys exactly as the tree's forward iterator yields them.
+func (d *Driver[K, V]) yieldedBytes() [][]byte {
+	var out [][]byte
+	for k := range d.tree.All() {
+		if b, ok := any(k).([]byte); ok {
+			out = append(out, b)
+		}
+	}
+	return out
+}
+
 func (d *Driver[K, V]) NormVal(v int) int { return d.valID(d.mkVal(v)) }
 
 func (d *Driver[K, V]) ValID(v any) int {
